@@ -1,41 +1,50 @@
 #!/usr/bin/env python3
-"""Regenerates /verif/MANIFEST.json from the table below (one entry per claimed property)."""
+"""Regenerates /verif/MANIFEST.json from tools/checks/<Cxx>.json (one file per claimed property) and
+tools/not_applicable.json (optional: {Cxx: reason})."""
+import glob
 import json
 import os
 
 VERIF = os.path.dirname(os.path.dirname(os.path.abspath(__file__)))
-
 ALL = ["C%02d" % i for i in range(1, 21)]
-
-# id -> (engine, technique, level text, level note, design ref)
-CHECKS = {
-    "C07": ("E2 small-scope enumerator",
-            "exhaustive enumeration of all ordered pairs of a bounded JSON-object universe + every reader x baseline-condition combination on the real codec/files",
-            "Every ordered pair (base, cur) of a closed universe of JSON objects (<=2 top-level keys from an alphabet with dotted, empty, unicode and reserved-looking keys; scalar values that are ==-equal but JSON-distinct; nested dicts; lists) is pushed through the real compute_delta/apply_delta and compared JSON-strictly; then every snapshot-shaped pair x {baseline present, missing, garbage, empty, truncated, other etag only} x {read_snapshot(root,etag), read_snapshot(path), load_latest_snapshot} is executed on real files. Exhaustive inside the bound, no sampling.",
-            "Bound: universe of ~1e3 (quick) / ~6e3 (thorough) objects, two nesting levels; codec 'none' only (zstandard absent); 'corrupt' = unparseable bytes.",
-            "DESIGN.md section 3 / C07"),
+ENGINES = {
+    "E1 history explorer": ("/verif/mc/explore.py", "explicit-state exploration (BFS to closure / to a depth) of operation histories of the real objects with canonical-state hashing; differential twin executions"),
+    "E2 small-scope enumerator": ("/verif/mc/runner.py", "complete enumeration of bounded input / configuration spaces (k-deviation products) against reference models and envelope invariants"),
+    "E3 schedule explorer": ("/verif/mc/sched.py", "stateless deviation-bounded exploration of thread interleavings (baton scheduler) and of every feasible completion order of a real thread pool (mc/pool_orders.py)"),
+    "E4 fault/crash enumerator": ("/verif/mc/faults.py", "call-numbering proxies inside the target module; every I/O boundary as kill point / failing call / short write, singly and in pairs; every declared fail-soft site x exception type"),
+    "E5 environment-answer enumerator": ("/verif/props/c01_repro.py", "every combination of hash seed (one process each) x clock profile x wall date x fresh/warm process"),
 }
-
-NOT_YET = "check not built yet in this round (planned, see DESIGN.md section 3)"
+NOT_YET = "check not built yet (planned, see DESIGN.md section 3)"
 
 
 def main():
     checks = []
+    table = {}
+    for f in sorted(glob.glob(os.path.join(VERIF, "tools", "checks", "C*.json"))):
+        table[os.path.basename(f)[:-5]] = json.load(open(f))
+    na = {}
+    nap = os.path.join(VERIF, "tools", "not_applicable.json")
+    if os.path.exists(nap):
+        na = json.load(open(nap))
     for pid in ALL:
-        if pid not in CHECKS:
+        if pid not in table:
             continue
-        engine, tech, text, note, ref = CHECKS[pid]
+        e = table[pid]
         checks.append({
             "property_id": pid,
             "quick_cmd": "./check %s quick" % pid,
             "thorough_cmd": "./check %s thorough" % pid,
             "evidence_file": "/verif/evidence/%s.json" % pid,
             "replay_cmd_template": "./check %s --replay {path}" % pid,
-            "engine": engine,
-            "level_claimed": {"category": "model_checking", "text": text, "design_ref": ref},
-            "level_note": note,
-            "technique": tech,
+            "engine": e["engine"],
+            "level_claimed": {"category": "model_checking", "text": e["text"], "design_ref": e.get("design_ref", "DESIGN.md section 3 / %s" % pid)},
+            "level_note": e["note"],
+            "technique": e["technique"],
         })
+    engines = []
+    for name, (path, kind) in ENGINES.items():
+        engines.append({"name": name, "path": path, "kind_free_text": kind,
+                        "serves_properties": [p for p in ALL if p in table and table[p]["engine"] == name]})
     man = {
         "version": 1,
         "setup_cmd": "true",
@@ -46,12 +55,9 @@ def main():
             "source_commits": [],
             "add_only": True,
         },
-        "engines": [
-            {"name": "E1 history explorer", "path": "/verif/mc/explore.py", "kind_free_text": "explicit-state BFS over operation histories of the real objects with canonical-state hashing", "serves_properties": []},
-            {"name": "E2 small-scope enumerator", "path": "/verif/mc/runner.py", "kind_free_text": "complete enumeration of bounded input/configuration spaces against reference models", "serves_properties": [p for p in CHECKS if CHECKS[p][0].startswith("E2")]},
-        ],
+        "engines": engines,
         "checks": checks,
-        "not_applicable": [{"property_id": p, "reason": NOT_YET} for p in ALL if p not in CHECKS],
+        "not_applicable": [{"property_id": p, "reason": na.get(p, NOT_YET)} for p in ALL if p not in table],
         "notes": "All checks decide their property by exhaustive bounded exploration of the real Python implementation (see DESIGN.md). known_findings.json lists genuine defects (fixed / known).",
     }
     with open(os.path.join(VERIF, "MANIFEST.json"), "w") as f:
